@@ -72,6 +72,20 @@ Remove(id) == /\ live' = Drop(live, id)
 (* remove(id) -> Err: refused (read-only store, unknown id): nothing changes *)
 RemoveRefused(id) == Same
 
+(* remove_batch(ids) -> Ok(n) = the sequence of single removes, "n = number of blobs actually    *)
+(* removed" (trait doc): each single remove may be refused (refusal rule; ids that are absent    *)
+(* are skipped), so some set R of n of the listed live records is gone and nothing else changes. *)
+(* n = 0 leaves the store unchanged; n = all listed live records removes them all; the logged    *)
+(* answers that follow resolve R in between.                                                      *)
+RemoveBatchMax(ids) == Cardinality(RangeOf(ids) \cap Live)
+RemoveBatchOkN(ids, n) == n \in 0..RemoveBatchMax(ids)
+RemoveBatch(ids, n) == /\ \E R \in SUBSET (RangeOf(ids) \cap Live) :
+                             /\ Cardinality(R) = n
+                             /\ live' = [x \in Live \ R |-> live[x]]
+                       /\ UNCHANGED <<issued, keyof, bykey>>
+(* remove_batch(ids) -> Err: the trait documents no partial effect: refused, nothing changes    *)
+RemoveBatchRefused(ids) == Same
+
 (* clear(): every record is gone *)
 Clear == live' = Empty /\ UNCHANGED <<issued, keyof, bykey>>
 
@@ -119,7 +133,20 @@ GetByPrefixOk(p, ok, r) ==
           /\ { r[i].k : i \in 1..Len(r) } = PrefixSet(p)
           /\ \A i \in 1..Len(r) : r[i].k \in PrefixSet(p) => r[i].d = live[bykey[r[i].k]]
 
+(* get_batch(ids) -> Ok(r): r[i] = [some, d] = Some(exactly the stored record) iff ids[i] is     *)
+(* live, None iff absent (removed / never issued), in the order asked.  Err is acceptable only  *)
+(* when some id of the batch is absent (a batch of live ids must be readable, like get).       *)
+GetBatchOk(ids, ok, r) ==
+    IF ok THEN /\ Len(r) = Len(ids)
+               /\ \A i \in 1..Len(ids) : IF IsLive(ids[i]) THEN r[i].some /\ r[i].d = live[ids[i]]
+                                          ELSE ~r[i].some
+    ELSE \E i \in 1..Len(ids) : ~IsLive(ids[i])
+(* iter_ids() -> the live ids, each exactly once, nothing else *)
+IterIdsOk(r) == Len(r) = Cardinality(Live) /\ RangeOf(r) = Live
+
 Get(id, ok, d) == GetOk(id, ok, d) /\ Same
+GetBatch(ids, ok, r) == GetBatchOk(ids, ok, r) /\ Same
+IterIds(r) == IterIdsOk(r) /\ Same
 Contains(id, r) == ContainsOk(id, r) /\ Same
 Size(id, ok, r) == SizeOk(id, ok, r) /\ Same
 Len_(r) == LenOk(r) /\ Same
